@@ -4,7 +4,7 @@ set -u
 c=$1; prop=$2; tier=${3:-quick}
 cd /repo || exit 2
 if ! git diff --quiet; then echo "repo dirty"; exit 2; fi
-git show "$c" | git apply -R || { echo "cannot reverse-apply"; exit 2; }
+git show "$c" | git apply -R 2>/dev/null || { git show "$c" | git apply -R --3way && git reset -q; } || { echo "cannot reverse-apply"; git checkout -- .; exit 2; }
 cd /verif
 ./check "$prop" --tier "$tier" > /tmp/try_revert.out 2>/tmp/try_revert.err
 rc=$?
